@@ -449,6 +449,9 @@ def h6(ctx):
         else:
             return False
         t = base.text(5)
+        ops = [k for k in base.kids if k is not None][-2:]
+        if any(const_eval(o) is not None for o in ops):
+            return False        # a test against a constant (`x.size() == 0`) is a guard
         return 'end()' not in t and 'cend' not in t
     deciding_probes(ctx, prog.one('PyTreeSpec::EqualTo'), 'EqualTo', 5,
                     'the comparison does not take part in the answer: treespecs that differ in it '
